@@ -16,6 +16,11 @@ ASSUMPTIONS = ["range-for iterates a container front to back"]
 
 
 def run(ctx):
+    # locals / parameters the rules below refer to by name (a rename makes the analysis 'broken', never a violation)
+    ctx.anchor(ctx.fn1('Oomd::Engine::Ruleset::runOnceImpl'), 'run_actions', 'dg', 'context')
+    ctx.anchor(ctx.fn1('Oomd::Engine::DetectorGroup::check'), 'ret')
+    ctx.anchor(ctx.fn1('Oomd::Engine::Engine::runOnce'), 'base', 'dropin')
+    ctx.anchor(ctx.fn1('Oomd::Engine::Engine::prerun'), 'base', 'dropin')
     P = ctx.prog
     # ------------------------------------------------ DetectorGroup::check
     chk = ctx.fn1("Oomd::Engine::DetectorGroup::check")
@@ -79,7 +84,7 @@ def run(ctx):
             for s in sw:
                 c = chk.nodes[chk.strip(chk.nodes[s]["c"])]
                 if c["k"] == "ref":
-                    init, v = local_init(chk, c["name"])
+                    init, v = local_init(chk, c["name"], must=False)
                     if init >= 0 and chk.strip(init) in runs:
                         okv = True
                 elif chk.strip(chk.nodes[s]["c"]) in runs:
